@@ -75,14 +75,23 @@ def check(run) -> None:
         raise MachineryError(f"HeapGen: {gen.error}\n{gen.stdout[-1500:]}")
     run.add_tlc(gen, "HeapGen history enumeration")
     cases = sorted(gen.json, key=lambda c: json.dumps(c, sort_keys=True))
-    progs = [p for p in (heap.build(c, n) for n, c in enumerate(cases)) if p]
+    progs, cases_of = [], {}
+    for n, c in enumerate(cases):
+        p = heap.build(c, n)
+        if p:
+            progs.append(p)
+            cases_of[p["id"]] = c
     rnd = random.Random(run.seed)
     if len(progs) > (1400 if quick else 9000):
         progs = rnd.sample(progs, 1400 if quick else 9000)
     st = Strata(run, "C09")
     clean = st.split(progs, "heap histories")
-    if quick and len(clean) > 220:
-        clean = rnd.sample(clean, 220)
+    if quick and len(clean) > 240:
+        # every single-operation history is always run; longer ones are sampled
+        n2i = {p["id"]: i for i, p in enumerate(progs)}
+        short = [p for p in clean if len(cases_of[p["id"]]["ops"]) == 1]
+        rest = [p for p in clean if len(cases_of[p["id"]]["ops"]) > 1]
+        clean = short + rnd.sample(rest, min(len(rest), 240 - len(short)))
     ev = lang.spec_eval(clean + [p for ps in PROBES.values() for p in ps], run, "live data per pass")
     lv = {pid: v["lv"] for pid, v in ev.items()}
     res = run_progs(run, clean, lv)
